@@ -19,6 +19,7 @@ package c13
 import (
 	"bytes"
 	"context"
+	"crypto"
 	"encoding/json"
 	"errors"
 	"fmt"
@@ -29,6 +30,7 @@ import (
 	"path/filepath"
 	"sort"
 	"strings"
+	"sync"
 	"sync/atomic"
 	"testing"
 	"testing/synctest"
@@ -49,22 +51,73 @@ func TestMain(m *testing.M) { engine.Main(m) }
 // ---------------------------------------------------------------------------
 // fixtures
 
+// keyDef is one published key: key material, the key id it is published under ("" = the
+// provider publishes it without kid) and the JWS algorithm it is published for. Two
+// names may share the material (n1 is k1's material published without a kid): a
+// provider that starts naming its keys rotates {n1} -> {k1}. Which tokens a key can
+// verify follows from its material (Alg is only what the document says).
+type keyDef struct {
+	Mat, KID, Alg string
+	Bare          bool // published as the bare key: no kid, no "use", no "alg" (all three are optional members of a JWK)
+}
+
+var keyDefs = map[string]keyDef{
+	"k1": {Mat: "p256a", KID: "k1", Alg: "ES256"},
+	"k2": {Mat: "p256b", KID: "k2", Alg: "ES256"}, // the key that is rotated in
+	"k3": {Mat: "p256c", KID: "k3", Alg: "ES256"}, // the attacker's key: never served under this name
+	// the ambiguity family (ambScenarios): keys published without a kid, a third kid-carrying key of the same
+	// algorithm (the attacker's material — a token naming another kid stays unacceptable while it is served),
+	// and keys of another algorithm with and without kid
+	"n1": {Mat: "p256a", Alg: "ES256"},
+	"n2": {Mat: "p256b", Bare: true},
+	"k9": {Mat: "p256c", KID: "k9", Alg: "ES256"},
+	"r1": {Mat: "rsa1", KID: "r1", Alg: "RS256"},
+	"rn": {Mat: "rsa1", Alg: "RS256"},
+	// the key id k1 reused for new material (a provider with a fixed kid that rotates the key behind it)
+	"k1b": {Mat: "p256b", KID: "k1", Alg: "ES256"},
+}
+
+// family of the key material: which JWS algorithms it can verify (ES* | RS*)
+func (d keyDef) family() string {
+	if strings.HasPrefix(d.Mat, "rsa") {
+		return "RS"
+	}
+	return "ES"
+}
+
+func algFamily(alg string) string {
+	if len(alg) < 2 {
+		return alg
+	}
+	return alg[:2] // ES | RS
+}
+
 type tokKind struct {
 	Name   string
 	KID    string
-	Signer string // k1 | k2 | k3
+	Signer string // name in keyDefs: its material signed the token
+	Alg    string // "" = ES256
 }
 
 var tokKinds = map[string]tokKind{
-	"k1":     {"k1", "k1", "k1"},     // signed by k1, names k1
-	"k2":     {"k2", "k2", "k2"},     // signed by the key that is rotated in
-	"unk":    {"unk", "zz", "k3"},    // unknown key id
-	"nokid":  {"nokid", "", "k1"},    // no key id, signed by k1
-	"nokid2": {"nokid2", "", "k2"},   // no key id, signed by the key that is rotated in
-	"forged": {"forged", "k1", "k3"}, // names k1 but signed by the attacker key
+	"k1":     {"k1", "k1", "k1", ""},     // signed by k1, names k1
+	"k2":     {"k2", "k2", "k2", ""},     // signed by the key that is rotated in
+	"unk":    {"unk", "zz", "k3", ""},    // unknown key id
+	"nokid":  {"nokid", "", "k1", ""},    // no key id, signed by k1
+	"nokid2": {"nokid2", "", "k2", ""},   // no key id, signed by the key that is rotated in
+	"forged": {"forged", "k1", "k3", ""}, // names k1 but signed by the attacker key
+	// ambiguity family only
+	"k9":     {"k9", "k9", "k9", ""},          // names k9, signed by its material
+	"rnokid": {"rnokid", "", "rn", "RS256"},   // RS256 token without key id
+	"k1b":    {"k1b", "k1", "k1b", ""},        // names k1, signed by the material that replaced k1's under the same kid
 }
 
-var keyOf = map[string]*keys.Key{"k1": keys.Get("p256a"), "k2": keys.Get("p256b"), "k3": keys.Get("p256c")}
+func (tk tokKind) alg() string {
+	if tk.Alg == "" {
+		return "ES256"
+	}
+	return tk.Alg
+}
 
 func payloadOf(kind string, i int) []byte {
 	return []byte(fmt.Sprintf(`{"sub":"caller-%d","tok":%q}`, i, kind))
@@ -72,21 +125,44 @@ func payloadOf(kind string, i int) []byte {
 
 var jwsCache = map[string]*jose.JSONWebSignature{}
 
+// nameOfKey maps (kid, thumbprint) of a published key to its name in keyDefs.
+var nameOfKey = map[string]string{}
+
+func thumb(k *jose.JSONWebKey) string {
+	b, err := k.Thumbprint(crypto.SHA256)
+	if err != nil {
+		return "?"
+	}
+	return fmt.Sprintf("%x", b[:8])
+}
+
 func init() {
 	for name, tk := range tokKinds {
 		for i := 0; i < 4; i++ {
-			c := keys.SignCompact(keyOf[tk.Signer], jose.ES256, tk.KID, payloadOf(name, i))
-			j, err := jose.ParseSigned(c, []jose.SignatureAlgorithm{jose.ES256})
+			c := keys.SignCompact(keys.Get(keyDefs[tk.Signer].Mat), jose.SignatureAlgorithm(tk.alg()), tk.KID, payloadOf(name, i))
+			j, err := jose.ParseSigned(c, []jose.SignatureAlgorithm{jose.ES256, jose.RS256})
 			if err != nil {
 				panic(err)
 			}
 			jwsCache[fmt.Sprintf("%s/%d", name, i)] = j
 		}
 	}
+	for name, d := range keyDefs {
+		if name == "k3" {
+			continue
+		}
+		k := jose.JSONWebKey{Key: keys.Get(d.Mat).PubForJose(), KeyID: d.KID}
+		nameOfKey[d.KID+"|"+thumb(&k)] = name
+	}
 }
 
-func keyEntry(kid string) string {
-	b, err := json.Marshal(jose.JSONWebKey{Key: keyOf[kid].PubForJose(), KeyID: kid, Use: "sig", Algorithm: "ES256"})
+func keyEntry(name string) string {
+	d := keyDefs[name]
+	jwk := jose.JSONWebKey{Key: keys.Get(d.Mat).PubForJose(), KeyID: d.KID, Use: "sig", Algorithm: d.Alg}
+	if d.Bare {
+		jwk.Use, jwk.Algorithm = "", ""
+	}
+	b, err := json.Marshal(jwk)
 	if err != nil {
 		panic(err)
 	}
@@ -120,7 +196,7 @@ var docKinds = map[string]docKind{
 	"dup": {false, func(kids []string) string { return keyEntry(kids[len(kids)-1]) }},
 	// an encryption key (P-384) that shares the key id of the newest served signing key: never a candidate for a signature
 	"enc": {false, func(kids []string) string {
-		b, err := json.Marshal(jose.JSONWebKey{Key: keys.Get("p384a").PubForJose(), KeyID: kids[len(kids)-1], Use: "enc", Algorithm: "ECDH-ES"})
+		b, err := json.Marshal(jose.JSONWebKey{Key: keys.Get("p384a").PubForJose(), KeyID: keyDefs[kids[len(kids)-1]].KID, Use: "enc", Algorithm: "ECDH-ES"})
 		if err != nil {
 			panic(err)
 		}
@@ -212,23 +288,73 @@ func dedupe(K []string) []string {
 	return out
 }
 
-// acceptable is the reference key-selection + signature predicate of the
-// statement for a published set K: a key of K whose id equals the token's key id
-// (or the only key of K when the token has none) and that really signed it.
-// K lists a duplicated entry twice: a token without key id then has two candidates and
-// acceptance is not demanded (completeness uses K as served), but it is allowed (safety
-// uses dedupe(K)).
-func acceptable(kind string, K []string) bool {
-	tk := tokKinds[kind]
-	if len(K) == 0 {
-		return false
-	}
-	if tk.KID == "" {
-		return len(K) == 1 && K[0] == tk.Signer
-	}
+// Reference key selection of the statement ("succeeds exactly when its token is signed by
+// a key the JWKS endpoint serves") for a published set K (names in keyDefs; a duplicated
+// entry is listed twice). The candidates of a token are the served keys of its algorithm
+// family that carry its key id, or — the token has no key id — all of them.
+//
+// mustAccept: the served set identifies the signing key uniquely — every entry that
+// carries the token's key id is the signing material (and there is one), or the token has
+// no key id and the set serves exactly one key of its algorithm, the signing one. Only then
+// is acceptance demanded.
+//
+// mayAccept: the signing material is served for the token's algorithm under the token's
+// key id, under no key id, or the token names none. Otherwise acceptance is a violation: an
+// unknown or retired key id is rejected even when another served key made the signature.
+//
+// Between the two the verdict is Either: a set that is ambiguous for a kid-less token (two
+// served keys of its algorithm — rejecting with "multiple possible keys" is right, trying
+// each candidate would be right too), a token that names a kid while the signing key is
+// published without one, two different keys published under one kid.
+func usable(tk tokKind, K []string) []string {
+	var out []string
 	for _, k := range K {
-		if k == tk.KID {
-			return k == tk.Signer
+		if keyDefs[k].family() == algFamily(tk.alg()) {
+			out = append(out, k)
+		}
+	}
+	return out
+}
+
+func mustAccept(kind string, K []string) bool {
+	tk := tokKinds[kind]
+	mat := keyDefs[tk.Signer].Mat
+	u := usable(tk, K)
+	if tk.KID == "" {
+		return len(u) == 1 && keyDefs[u[0]].Mat == mat
+	}
+	n := 0
+	for _, k := range u {
+		if keyDefs[k].KID == tk.KID {
+			if keyDefs[k].Mat != mat {
+				return false
+			}
+			n++
+		}
+	}
+	return n > 0
+}
+
+// staleClass names the input class of a "rejected on the cache without a refresh" report:
+// the token kind, or — the cached set holds ANOTHER key under the key id the token names
+// (the provider replaced the key behind a fixed kid) — that situation.
+func staleClass(kind string, cached []string) string {
+	tk := tokKinds[kind]
+	for _, k := range usable(tk, cached) {
+		if tk.KID != "" && keyDefs[k].KID == tk.KID && keyDefs[k].Mat != keyDefs[tk.Signer].Mat {
+			return "same-kid-new-key"
+		}
+	}
+	return kind
+}
+
+func mayAccept(kind string, K []string) bool {
+	tk := tokKinds[kind]
+	mat := keyDefs[tk.Signer].Mat
+	for _, k := range usable(tk, K) {
+		d := keyDefs[k]
+		if d.Mat == mat && (tk.KID == "" || d.KID == "" || d.KID == tk.KID) {
+			return true
 		}
 	}
 	return false
@@ -247,17 +373,23 @@ type scen struct {
 	MaxCancel int      `json:"max_cancels"`
 	Deadline  bool     `json:"cancel_by_deadline"` // callers' contexts end by a deadline (caller i: start+(i+1)h) instead of an explicit cancel; expire(ci) advances the fake clock past caller i's deadline
 	FailKinds []string `json:"fail_kinds"`
+	Sets      [][]string `json:"key_sets,omitempty"`           // ambiguity family: the provider's successive key sets (names in keyDefs), overrides Rot; every "rotate+ok" answer advances by one
 	Doc       string   `json:"jwks_document,omitempty"` // "<entry kind>@<first|middle|last>", "plain", "empty", "onlyunk"; "" = the default document (see jwksBody). Applies to every 200 answer of the explored history; the warm-up download always gets the default document
 }
 
-func (s scen) sets() (s0, s1 []string) {
+// seq is the sequence of key sets the provider goes through (element 0 = the initial set,
+// which also fills a warm cache).
+func (s scen) seq() [][]string {
+	if s.Sets != nil {
+		return s.Sets
+	}
 	switch s.Rot {
 	case "add":
-		return []string{"k1"}, []string{"k1", "k2"}
+		return [][]string{{"k1"}, {"k1", "k2"}}
 	case "replace":
-		return []string{"k1"}, []string{"k2"}
+		return [][]string{{"k1"}, {"k2"}}
 	}
-	return []string{"k1"}, nil
+	return [][]string{{"k1"}}
 }
 
 // ---------------------------------------------------------------------------
@@ -286,6 +418,8 @@ type callerRec struct {
 	// order facts the oracle uses (all part of the state key)
 	FinishedAtStart []int // flights finished when the caller started
 	ReleasedAtRet   []int // flights released when the caller returned
+	RotAtRet        int   // which key set the provider served when the caller returned
+	Waited          bool  // it went to the remote path: its select on (own context, shared download) was resolved
 	BaseAtStart     string
 	payload         []byte
 	err             error
@@ -297,7 +431,7 @@ type execution struct {
 	ks       oidc.KeySet
 	callers  []*callerRec
 	flights  []*flight
-	rotated  bool
+	rot      int // index into sc.seq(): the key set the provider serves now
 	fails    int
 	cancels  int
 	base     []string // model: keys of the last successfully finished download (or warm set)
@@ -338,7 +472,7 @@ func (t transport) RoundTrip(req *http.Request) (*http.Response, error) {
 		for i := 1; i < len(opts); i++ {
 			switch {
 			case opts[i] == "rotate+ok":
-				if !e.rotated && e.sc.Rot != "none" && e.sc.Rot != "" {
+				if e.rot < len(e.sc.seq())-1 {
 					r = append(r, i)
 				}
 			case strings.HasPrefix(opts[i], "fail:"):
@@ -365,8 +499,7 @@ func (t transport) RoundTrip(req *http.Request) (*http.Response, error) {
 		if fl != nil {
 			return mk(200, jwksBody(fl.Nominal, fl.Doc))
 		}
-		ks, _ := e.sc.sets()
-		return mk(200, jwksBody(ks, ""))
+		return mk(200, jwksBody(e.sc.seq()[0], ""))
 	case "fail:500":
 		return mk(500, []byte(`internal error`))
 	case "fail:json":
@@ -383,13 +516,7 @@ func (t transport) RoundTrip(req *http.Request) (*http.Response, error) {
 	panic("unknown fetch option " + name)
 }
 
-func (e *execution) currentSet() []string {
-	s0, s1 := e.sc.sets()
-	if e.rotated {
-		return s1
-	}
-	return s0
-}
+func (e *execution) currentSet() []string { return e.sc.seq()[e.rot] }
 
 // doc is the document variant a 200 answer released now would carry.
 func (e *execution) doc() string {
@@ -413,9 +540,9 @@ func idxList(fs []*flight, pred func(*flight) bool) []int {
 // counters and the order facts the oracle depends on.
 func (e *execution) envKey() string {
 	var b strings.Builder
-	fmt.Fprintf(&b, "rot=%v fails=%d cancels=%d base=%v|", e.rotated, e.fails, e.cancels, e.base)
+	fmt.Fprintf(&b, "rot=%v fails=%d cancels=%d base=%v|", e.rot, e.fails, e.cancels, e.base)
 	for i, c := range e.callers {
-		fmt.Fprintf(&b, "c%d:%v,%v,%v,%v,%v,%s,%s;", i, c.Started, c.Returned, c.Cancelled, c.FinishedAtStart, c.ReleasedAtRet, c.BaseAtStart, c.Result)
+		fmt.Fprintf(&b, "c%d:%v,%v,%v,%v,%v,%d,%v,%s,%s;", i, c.Started, c.Returned, c.Cancelled, c.FinishedAtStart, c.ReleasedAtRet, c.RotAtRet, c.Waited, c.BaseAtStart, c.Result)
 	}
 	for i, f := range e.flights {
 		fmt.Fprintf(&b, "f%d:%d,%v,%v,%s,%v,%v;", i, f.Owner, f.Entered, f.Released, f.Outcome, f.Keys, f.Finished)
@@ -471,6 +598,7 @@ func (e *execution) refresh() {
 			c.Returned = true
 			c.Result = classify(c)
 			c.ReleasedAtRet = idxList(e.flights, func(f *flight) bool { return f.Released })
+			c.RotAtRet = e.rot
 		}
 	}
 	// F1: never two downloads in flight
@@ -500,7 +628,7 @@ func runIn(sc scen, ch *engine.Chooser) engine.Result {
 	e := &execution{sc: sc, s: vsync.NewSched()}
 	defer e.s.Close()
 	defer func() {
-		if sc.RotPre && !e.rotated {
+		if sc.RotPre && e.rot == 0 {
 			panic("harness: pre-rotation lost")
 		}
 	}()
@@ -530,7 +658,8 @@ func runIn(sc scen, ch *engine.Chooser) engine.Result {
 		e.warming = true
 		e.s.Spawn("warm", nil, func() {
 			_, err := e.ks.VerifySignature(context.Background(), jwsCache["k1/3"])
-			if err != nil {
+			if err != nil && sc.Sets == nil {
+				// (ambiguity family: the warm-up token need not verify under the initial set; all that counts is the download — checked below)
 				e.problem("INTERNAL", "warm-up verification failed: "+err.Error())
 			}
 			done = true
@@ -551,11 +680,13 @@ func runIn(sc scen, ch *engine.Chooser) engine.Result {
 		// the warm-up's download is part of the initial state, not of the explored history
 		e.flights = nil
 		e.warming = false
-		s0, _ := sc.sets()
-		e.base, e.baseSet = s0, true
+		e.base, e.baseSet = sc.seq()[0], true
+		if got, ok := e.cacheNames(); ok && sc.Sets != nil && strings.Join(got, ",") != strings.Join(sortedCopy(e.base), ",") {
+			e.problem("INTERNAL", fmt.Sprintf("warm-up left the cache at %v, initial key set %v", got, e.base))
+		}
 	}
 	if sc.RotPre {
-		e.rotated = true
+		e.rot = 1
 	}
 	t0 := time.Now()
 	for i, kind := range sc.Tokens {
@@ -693,6 +824,12 @@ func (e *execution) fire(c vsync.Choice) {
 				extra = fmt.Sprint(cr.FinishedAtStart, cr.BaseAtStart)
 			}
 		}
+	case vsync.KSelect:
+		for _, cr := range e.callers {
+			if cr.G == c.G {
+				cr.Waited = true
+			}
+		}
 	case vsync.KEnv:
 		name := e.fetchOpt[c.Opt]
 		var fl *flight
@@ -706,7 +843,7 @@ func (e *execution) fire(c vsync.Choice) {
 			switch {
 			case name == "ok" || name == "rotate+ok":
 				if name == "rotate+ok" {
-					e.rotated = true
+					e.rot++
 				}
 				fl.Outcome, fl.Nominal, fl.Doc = "ok", e.currentSet(), e.doc()
 				fl.Keys, fl.Either = servedKeys(fl.Nominal, fl.Doc), docEither(fl.Doc)
@@ -753,7 +890,7 @@ func (e *execution) judge1(reading string) engine.Result {
 	sc := e.sc
 	var warm []string
 	if sc.Warm {
-		warm, _ = sc.sets()
+		warm = sc.seq()[0]
 	}
 	failedReading := reading == "failed"
 	initBase := "none"
@@ -827,7 +964,7 @@ func (e *execution) judge1(reading string) engine.Result {
 			}
 			any := false
 			for _, K := range U {
-				if acceptable(kind, dedupe(K)) {
+				if mayAccept(kind, K) {
 					any = true
 				}
 			}
@@ -846,7 +983,7 @@ func (e *execution) judge1(reading string) engine.Result {
 				windowFlights++
 			}
 		}
-		baseOK := len(W) > 0 && baseAtStart != "none" && acceptable(kind, W[0])
+		baseOK := len(W) > 0 && baseAtStart != "none" && mustAccept(kind, W[0])
 		var F [][]string // successful downloads it could have consumed
 		if baseAtStart != "none" {
 			F = W[1:]
@@ -860,9 +997,10 @@ func (e *execution) judge1(reading string) engine.Result {
 				e.problem("C13/completeness/no-key-set-consulted/"+kind, fmt.Sprintf("caller %d (%s) failed with %q without cached keys and without any download", i, kind, c.err))
 			case baseOK:
 				e.problem("C13/completeness/valid-token-rejected/"+kind, fmt.Sprintf("caller %d (%s) failed with %q although the cached key set %s contains its key", i, kind, c.err, baseAtStart))
-			case acceptable(kind, servedKeys(e.currentSet(), sc.Doc)) && !(sc.Skip && tokKinds[kind].KID == ""):
-				// "a token signed with a newly rotated key triggers a refresh and then verifies"
-				e.problem("C13/rotation/no-refresh-for-key-the-provider-serves/"+kind, fmt.Sprintf("caller %d (%s) failed with %q on the cached set %s without refreshing, while the provider serves %v", i, kind, c.err, baseAtStart, e.currentSet()))
+			case mustAccept(kind, servedKeys(sc.seq()[c.RotAtRet], sc.Doc)) && !(sc.Skip && tokKinds[kind].KID == ""):
+				// "a token signed with a newly rotated key triggers a refresh and then verifies" (no download was released while the
+				// caller ran, so the provider served this set during the whole call)
+				e.problem("C13/rotation/no-refresh-for-key-the-provider-serves/"+staleClass(kind, W[0]), fmt.Sprintf("caller %d (%s) failed with %q on the cached set %s without refreshing, while the provider serves %v", i, kind, c.err, baseAtStart, sc.seq()[c.RotAtRet]))
 			}
 			continue
 		}
@@ -871,7 +1009,7 @@ func (e *execution) judge1(reading string) engine.Result {
 		}
 		all := true
 		for _, K := range F {
-			if !acceptable(kind, K) {
+			if !mustAccept(kind, K) {
 				all = false
 			}
 		}
@@ -880,6 +1018,9 @@ func (e *execution) judge1(reading string) engine.Result {
 		}
 		if abortInWindow {
 			e.problem("C13/isolation/other-callers-cancel-failed-this-caller", fmt.Sprintf("caller %d (%s, never cancelled) failed with %q: the shared download was aborted by another caller's cancellation (%s)", i, kind, c.err, e.describe()))
+		} else if len(F) > 0 && !c.Waited && baseAtStart != "none" {
+			// it never joined a download: it decided on the cache, and every set the provider served meanwhile identifies its key
+			e.problem("C13/rotation/no-refresh-for-key-the-provider-serves/"+staleClass(kind, W[0]), fmt.Sprintf("caller %d (%s) failed with %q on the cache (%s at its start) without joining or starting a download, while every set the provider served during the call (%v) contains its key (%s)", i, kind, c.err, baseAtStart, F, e.describe()))
 		} else if len(F) > 0 {
 			e.problem("C13/completeness/valid-token-rejected/"+kind, fmt.Sprintf("caller %d (%s) failed with %q although every download it could have consumed (%v) contains its key and none failed (%s)", i, kind, c.err, F, e.describe()))
 		}
@@ -911,7 +1052,8 @@ func (e *execution) judge1(reading string) engine.Result {
 		}
 	}
 	if allDone {
-		kids, infl, ok := rp.VerifKeySetState(e.ks)
+		_, infl, _ := rp.VerifKeySetState(e.ks)
+		kids, ok := e.cacheNames()
 		if ok {
 			want := e.base
 			if !e.baseSet {
@@ -943,6 +1085,29 @@ func (e *execution) judge1(reading string) engine.Result {
 		}
 	}
 	out := strings.Join(outs, ",") + fmt.Sprintf("|dl=%d", len(e.flights))
+	if sc.Sets != nil {
+		out += "|amb"
+		// non-vacuity evidence of the ambiguity family: how the token relates to the set the provider served when the caller returned, and what the caller got
+		for i, c := range e.callers {
+			if !c.Returned || c.Cancelled {
+				continue
+			}
+			K, cls := sc.seq()[c.RotAtRet], "unserved"
+			switch {
+			case mustAccept(sc.Tokens[i], K):
+				cls = "unique"
+			case mayAccept(sc.Tokens[i], K):
+				cls = "ambiguous-or-loose"
+			}
+			if strings.HasPrefix(c.Result, "ok") {
+				cls += ":accepted"
+			} else {
+				cls += ":rejected"
+			}
+			n, _ := ambStat.LoadOrStore(cls, new(atomic.Int64))
+			n.(*atomic.Int64).Add(1)
+		}
+	}
 	if reading != "" {
 		out += "|doc=" + reading // a document the statement does not classify, and the reading under which the execution is fine
 	} else if sc.Doc != "" {
@@ -957,6 +1122,32 @@ func (e *execution) judge1(reading string) engine.Result {
 		return engine.Bad(rule, out, sig, detail+fmt.Sprintf(" [all problems: %d]", len(e.problems)))
 	}
 	return engine.OK(rule, out)
+}
+
+func sortedCopy(l []string) []string {
+	out := append([]string(nil), l...)
+	sort.Strings(out)
+	return out
+}
+
+// cacheNames reads the cached keys through the overlay accessor (only at quiescence) and
+// names them: a key of keyDefs by (kid, material), anything else (an encryption key or a
+// foreign key under a served kid) by its kid. Sorted.
+func (e *execution) cacheNames() ([]string, bool) {
+	cached, ok := rp.VerifKeySetKeys(e.ks)
+	if !ok {
+		return nil, false
+	}
+	out := []string{}
+	for i := range cached {
+		if n, ok := nameOfKey[cached[i].KeyID+"|"+thumb(&cached[i])]; ok {
+			out = append(out, n)
+		} else {
+			out = append(out, cached[i].KeyID)
+		}
+	}
+	sort.Strings(out)
+	return out, true
 }
 
 func (e *execution) describe() string {
@@ -1020,6 +1211,7 @@ func scenarios(c *engine.Check) []scen {
 		add([]string{k}, false, fk)
 	}
 	out = append(out, docScenarios(kinds)...)
+	out = append(out, ambScenarios(c)...)
 	for _, toks := range multisets(kinds, n) {
 		add(toks, false, fk)
 	}
@@ -1095,6 +1287,100 @@ func docScenarios(kinds []string) []scen {
 	return out
 }
 
+// ambSets is the key-set alphabet of the ambiguity family: {0,1,2} keys published WITHOUT
+// a kid for the token algorithm x {no, one kid-carrying key of the same algorithm, one
+// kid-carrying key of another algorithm}, a kid-less key of another algorithm alone / next
+// to one / next to two, and the kid-carrying publication of the same materials (k1 is n1's
+// material, k2 is n2's).
+func ambSets() [][]string {
+	var out [][]string
+	for _, c := range [][]string{nil, {"k9"}, {"r1"}} {
+		for _, l := range [][]string{nil, {"n1"}, {"n2"}, {"n1", "n2"}} {
+			var set []string
+			if len(c) > 0 && c[0] == "k9" {
+				set = append(set, c...) // the kid-carrying key of the same algorithm stands first
+			}
+			set = append(set, l...)
+			if len(c) > 0 && c[0] != "k9" {
+				set = append(set, c...)
+			}
+			if len(set) > 0 {
+				out = append(out, set)
+			}
+		}
+	}
+	return append(out, []string{"rn"}, []string{"rn", "n1"}, []string{"n1", "rn", "n2"}, []string{"k1"}, []string{"k1", "k2"})
+}
+
+var ambTokens = []string{"nokid", "nokid2", "k1", "k2", "k9", "unk", "forged", "rnokid"}
+
+// ambScenarios: WHICH keys a cache and a download hold (how many candidates a token has in
+// them) is, like the JWKS document, a sequential dimension: one caller per token kind on
+// every ordered pair of key sets (warm cache holding the first; the provider moves to the
+// second before the call, or at the caller's own download, or not at all), one caller on
+// a cold cache per set, the kid-less tokens again under SkipRemoteCheck; and two callers
+// (three in thorough) on three-step rotations, where the cache becomes ambiguous and
+// unambiguous again inside the explored history, with at most one 5xx answer.
+func ambScenarios(c *engine.Check) []scen {
+	var out []scen
+	sets := ambSets()
+	for _, s0 := range sets {
+		for _, k := range ambTokens {
+			out = append(out, scen{Tokens: []string{k}, Sets: [][]string{s0}})
+		}
+		for _, s1 := range sets {
+			if strings.Join(s0, ",") == strings.Join(s1, ",") {
+				continue
+			}
+			for _, k := range ambTokens {
+				for _, pre := range []bool{false, true} {
+					out = append(out, scen{Tokens: []string{k}, Warm: true, RotPre: pre, Sets: [][]string{s0, s1}})
+					if tokKinds[k].KID == "" {
+						out = append(out, scen{Tokens: []string{k}, Warm: true, RotPre: pre, Skip: true, Sets: [][]string{s0, s1}})
+					}
+				}
+			}
+		}
+	}
+	seqs := [][][]string{
+		{{"n1"}, {"n1", "n2"}, {"n2"}},                   // single -> overlap -> single, all without kid
+		{{"n1", "n2"}, {"n2"}, {"k9", "n2"}},             // overlap -> single -> a named key joins
+		{{"n1"}, {"k1"}, {"k1", "k2"}},                   // the provider starts naming its key, then rotates with names
+		{{"k1", "k2"}, {"n1", "n2"}, {"n2"}},             // names dropped during the overlap
+		{{"n1", "r1"}, {"n1", "n2", "r1"}, {"n2", "r1"}}, // the same next to a key of another algorithm
+		{{"k9", "n1"}, {"k9", "n1", "n2"}, {"k9", "n2"}}, // the same next to a named key of the same algorithm
+	}
+	pairs := [][]string{{"nokid2", "nokid2"}, {"nokid", "nokid2"}, {"k2", "nokid2"}, {"unk", "nokid2"}, {"k1", "nokid"}}
+	if c.Thorough() {
+		pairs = append(pairs, []string{"nokid", "nokid2", "nokid2"}, []string{"k2", "nokid2", "nokid2"})
+	}
+	for _, sq := range seqs {
+		for _, toks := range pairs {
+			for _, warm := range []bool{false, true} {
+				out = append(out, scen{Tokens: toks, Warm: warm, Sets: sq, MaxFail: 1, FailKinds: []string{"500"}})
+			}
+		}
+	}
+	// one key id, successive materials: the cached key named by the token is no longer the served one
+	reuse := [][][]string{{{"k1"}, {"k1b"}}, {{"k1b"}, {"k1"}}, {{"k1", "k2"}, {"k1b"}}, {{"n1"}, {"k1b"}}, {{"k1b"}, {"n2"}}, {{"k1"}, {"k1", "k1b"}}, {{"k1", "k1b"}, {"k1b"}}}
+	for _, sq := range reuse {
+		for _, k := range []string{"k1", "k1b", "nokid", "nokid2", "forged", "unk"} {
+			out = append(out, scen{Tokens: []string{k}, Sets: sq[:1]})
+			for _, pre := range []bool{false, true} {
+				out = append(out, scen{Tokens: []string{k}, Warm: true, RotPre: pre, Sets: sq})
+			}
+		}
+	}
+	for _, toks := range [][]string{{"k1b", "k1b"}, {"unk", "k1b"}, {"k1", "k1b"}} {
+		for _, warm := range []bool{false, true} {
+			out = append(out, scen{Tokens: toks, Warm: warm, Sets: [][]string{{"k1"}, {"k1b"}}, MaxFail: 1, FailKinds: []string{"500"}})
+		}
+	}
+	return out
+}
+
+var ambStat sync.Map // class -> *atomic.Int64
+
 func TestCheck(t *testing.T) {
 	c := engine.Start(t, "C13")
 	defer c.Finish()
@@ -1116,7 +1402,11 @@ func TestCheck(t *testing.T) {
 			docScens++
 		}
 	}
+	only := os.Getenv("C13_ONLY") // development aid: "amb" explores the ambiguity family only (scenario indices stay the same)
 	runScen := func(w, si int, ch *engine.Chooser) engine.Result {
+		if only == "amb" && scs[si].Sets == nil && c.ReplayFile == "" {
+			return engine.OK("not-run", "C13_ONLY")
+		}
 		perScen[si].Add(1)
 		return run(t, w, scs[si], ch)
 	}
@@ -1141,6 +1431,17 @@ func TestCheck(t *testing.T) {
 		}
 	}
 	c.Extra("jwks_document_variants", docVariants())
+	ambScens, ambRuns := 0, int64(0)
+	for i := range scs {
+		if scs[i].Sets != nil {
+			ambScens++
+			ambRuns += perScen[i].Load()
+		}
+	}
+	ambCls := map[string]int64{}
+	ambStat.Range(func(k, v any) bool { ambCls[k.(string)] = v.(*atomic.Int64).Load(); return true })
+	c.Extra("ambiguity_family", map[string]any{"key_sets": ambSets(), "tokens": ambTokens, "scenarios": ambScens, "executions_incl_reruns": ambRuns,
+		"token_vs_set_served_at_return:result (callers, incl. reruns)": ambCls})
 	c.Extra("jwks_document_scenarios", map[string]any{"scenarios": docScens, "of": len(scs), "executions_incl_reruns": docRuns, "of_executions": allRuns})
 	if f := os.Getenv("C13_SCEN_STATS"); f != "" {
 		var b strings.Builder
